@@ -17,16 +17,27 @@
     table only through the map label ↦ statement number — the order in which labels are defined
     and used, and whatever else the table contains, is irrelevant.
 
+  * `parse_stmt_tokens` + `airOf_words` (`Proofs/AsmStmtTokens.lean`, statement level of the
+    token stage): for every abstract instruction statement and every token list that spells its
+    operands (any spans / literal base / register case), `parse_instr` / `parse_trap` returns
+    exactly `airOf` (or `litRange` when a literal does not fit), and the specification's word of the
+    resolved `airOf` statement is `Spec.SrcStmt.words` at `orig + line − 1` with label addresses
+    read off the final symbol table (incl. the literal-offset arithmetic and the `u8` casts);
+    combined in `stmt_tokens_to_spec` below.
+
   STATED, not proved (`def … : Prop`; checked by the three-way correspondence `./check C01`, which
   compares lace, this model and `Spec.Prog.image` on rendered abstract programs):
 
   * `assemble_image`: for a well-formed abstract program `P` and any text `t` that is a layout of
     `P`, `assemble flag [] t = ok (Prog.image flag P)`; its corollary `layout_irrelevant`.
-    Missing: the lexer lemmas of stage 2 (`lex (spelling ++ sep ++ rest) = tok :: …`) and the
-    induction over items with the symbol-table invariant that connects `Spec.Prog` to the AIR.
+    Missing: the lexer lemmas of stage 2 (`lex (spelling ++ sep ++ rest) = tok :: …`), the
+    preprocessor's expansion of `.fill/.blkw/.stringz`, and the induction over the items of a whole
+    program (`parseLoop`) with the symbol-table invariant "label ↦ 1 + number of words before it"
+    that lifts `stmt_tokens_to_spec` from one statement to `Spec.Prog.image`.
 -/
 import Lace.Props.C01Stage1
 import Lace.Proofs.AsmImage
+import Lace.Proofs.AsmStmtTokens
 import Lace.Spec.Prog
 import Lace.Model.Assemble
 namespace Lace.C01
@@ -116,6 +127,38 @@ example : ∀ name, SymTab.get? [("a".toList, 1), ("b".toList, 2)] name =
 /-- hypotheses satisfiable: `loop add r1 r1 #-1 / brp loop / halt` assembles to an image -/
 example : ∃ img, (assemble false [] "loop add r1 r1 #-1\nbrp loop\nhalt".toList).1 = .ok img ∧
     img.words = [0x127F#16, 0x03FE#16, 0xF025#16] := ⟨_, by rfl, by rfl⟩
+
+/-- **Tokens → specification, one statement.**  Take any abstract instruction statement `s`, any
+tokens spelling its operands, the symbol table `tbl` at the moment it is parsed as statement number
+`line`, and a final table `tbl'` extending it.  Then the parser's answer is a statement (or the
+`litRange` diagnostic) such that resolving it against `tbl'` and taking the specification's word
+gives exactly `Spec.SrcStmt.words s` at address `orig + line − 1`, labels read off `tbl'`. -/
+theorem stmt_tokens_to_spec (names : Nat → List Char) (srcLen : Nat) (tbl tbl' : SymTab) (line : Nat)
+    (orig : Word) (sp : Span) (s : SrcStmt) (hd : Head) (ops : List Opnd)
+    (hs : stmtSyntax names s = some (hd, ops)) (toks rest : List Token) (hm : MatchAll ops toks)
+    (hmono : ∀ n v, tbl.get? n = some v → tbl'.get? n = some v)
+    (lab : Nat → Option Word) (hlab : ∀ id, lab id = (tbl'.get? (names id)).map (addrOf orig)) :
+    (∃ stmt te, parseHead srcLen tbl line hd (toks ++ rest) = .ok (stmt, rest, te) ∧
+        s.words lab (addrOf orig line) = finish tbl' orig line sp stmt) ∨
+    (∃ spn, parseHead srcLen tbl line hd (toks ++ rest) = .diag .litRange spn ∧
+        s.words lab (addrOf orig line) = none) := by
+  have h1 := parse_stmt_tokens names srcLen tbl line s hd ops hs toks rest hm
+  have h2 := airOf_words names tbl tbl' line orig sp hmono lab hlab s (by rw [hs]; rfl)
+  cases ha : airOf names tbl line s with
+  | some stmt =>
+    rw [ha] at h1 h2
+    obtain ⟨te, h1⟩ := h1
+    exact Or.inl ⟨stmt, te, h1, h2⟩
+  | none =>
+    rw [ha] at h1 h2
+    obtain ⟨spn, h1⟩ := h1
+    exact Or.inr ⟨spn, h1, h2⟩
+
+/-- hypotheses satisfiable: `ld r3 #-2` spelled with a decimal literal token -/
+example : stmtSyntax (fun _ => []) (.ld 3#3 (.lit 0xFFFE#16)) = some (.instr .ld, [.reg 3#3, .lit 0xFFFE#16]) ∧
+    MatchAll [.reg 3#3, .lit 0xFFFE#16]
+      [⟨.reg 3#3, ⟨3, 2⟩, "r3".toList⟩, ⟨.lit (.dec 0xFFFE#16), ⟨6, 3⟩, "#-2".toList⟩] :=
+  ⟨rfl, rfl, rfl, trivial⟩
 
 /-! ### text level (stated; see the header) -/
 
